@@ -454,10 +454,10 @@ def coq_eval_terms(prop_id, imports, terms, timeout=300):
 
 RUST_SO = {
     # cargo package -> (lib file in target/debug, destination glob prefix in breezy/)
-    "osutils-py": ("lib_osutils_rs.so", "_osutils_rs"),
-    "patch-py": ("lib_patch_rs.so", "_patch_rs"),
-    "git-py": ("lib_git_rs.so", "_git_rs"),
-    "cmd-py": ("lib_cmd_rs.so", "_cmd_rs"),
+    "osutils-py": ("libosutils_py.so", "_osutils_rs"),
+    "patch-py": ("libpatch_py.so", "_patch_rs"),
+    "git-py": ("libgit_py.so", "_git_rs"),
+    "cmd-py": ("libcmd_py.so", "_cmd_rs"),
 }
 
 
